@@ -3,7 +3,7 @@
     coqc is run from the directory that should receive pegmodel.ml.
     The [x_*] names are the driver's entry points (unique names, so that extraction never renames them). *)
 From Coq Require Import ExtrOcamlBasic List.
-From PegV Require Import Spec.WF Model.SkipCheck Model.Optimize Model.Front Model.EmitFacts Model.Emit Model.Cli Generated.CliFacts Model.SetImpl Spec.Syntax Spec.Peg Model.Machine Model.Runtime Model.Analyses Model.Gen.
+From PegV Require Import Spec.WF Model.SkipCheck Model.Optimize Model.Front Model.EmitFacts Model.Emit Model.Link Model.Cli Generated.CliFacts Model.SetImpl Spec.Syntax Spec.Peg Model.Machine Model.Runtime Model.Analyses Model.Gen.
 Extraction Language OCaml.
 
 Definition x_set_run := SetImpl.run.
@@ -30,6 +30,7 @@ Definition x_sx_ok := Front.sx_ok.
 Definition x_optimize := Optimize.optimize.
 Definition x_fs_table := Optimize.fs_table.
 Definition x_opt_ok := Optimize.opt_ok_b.
+Definition x_link := Link.link.
 Definition x_emit_all (g : Syntax.grammar) (ast inline : bool) (undef : list bool) : list (option (list Emit.tok)) :=
   map (option_map (fun c => Emit.squash (Emit.flat c)))
       (let asul := map (Analyses.asu_rule g) (seq 0 (length g)) in
@@ -52,4 +53,4 @@ Extraction "pegmodel.ml"
   x_undefined x_unused x_duplicates x_leftrec x_reached x_closed_b x_cli_model x_cli_destination
   x_set_run x_set_has x_set_len x_set_elements x_set_intersects x_set_equal
   x_mk_opts x_run_history x_spec_parse x_first_furthest x_flat x_zero_state
-  x_inline_table x_asu_rule x_count_rules x_execute x_wf_auto x_good_grammar_b x_swok_b x_optimize x_fs_table x_opt_ok x_emit_all x_elab x_sx_ok x_peg_rule_type.
+  x_inline_table x_asu_rule x_count_rules x_execute x_wf_auto x_good_grammar_b x_swok_b x_optimize x_fs_table x_opt_ok x_emit_all x_link x_elab x_sx_ok x_peg_rule_type.
